@@ -9,8 +9,11 @@
      HasProperties.exportProperties (non-default rule for group and visibility), Parameter.for_export, Command.for_export,
      SecNode.export_accessibles, SecNode.get_descriptive_data (whole node), Dispatcher._getParameterValue / _setParameterValue /
      _execute_command / handle_read / handle_change / handle_do / handle_activate, make_update, Module.announceUpdate
-     (omit_unchanged_within = 0), the write wrapper without a user write method, Parameter.__set__ (driver assignment),
-     Command.do; export_value of the datatypes (subset) *)
+     (omit_unchanged_within = 0, an error equal to the stored read error is not announced again), the generated read wrapper
+     around a user read method (the hardware value is converted with the datatype of the INSTANCE's Parameter), the write
+     wrapper without a user write method, Parameter.__set__ (driver assignment), Command.do; the module properties named in the
+     configuration followed by the automatic ones (implementation, interface_classes, features);
+     export_value of the datatypes (subset) *)
 From Coq Require Import ZArith NArith Bool List.
 Import ListNotations.
 Require Import FV.Base.Util FV.Base.F64 FV.Base.PyVal FV.C01.Model FV.Gen.C06.
@@ -105,6 +108,7 @@ Record pcfg := {
   pc_const_cls : option pyval;      (* constant given in the class definition *)
   pc_const_cfg : option pyval;      (* constant given in the configuration *)
   pc_default : option pyval;        (* default given in the class definition *)
+  pc_hw : option pyval;             (* Some h: the class has a read_<attr> method, it returns the hardware register (initially h) *)
 }.
 Record ccfg := { cc_arg : option dtype; cc_res : option dtype; cc_ret : pyval (* what the fake method returns *) }.
 Inductive body := BParam (p : pcfg) | BCmd (c : ccfg).
@@ -116,6 +120,9 @@ Record acfg := {
   ac_vis : Z;
   ac_body : body;
 }.
+(* the module properties the code sets automatically; a configuration may name them too *)
+Inductive akey := KImpl | KIfaces | KFeatures.
+Inductive mpropv := MPStr (s : str) | MPList (l : list str).
 Record mcfg := {
   mc_name : str;
   mc_export : bool;
@@ -124,11 +131,17 @@ Record mcfg := {
   mc_impl : str;                    (* module.qualname of the class, python runtime data *)
   mc_mro : list (str * bool);       (* C3 MRO as computed by the interpreter: class name, Feature in its direct bases *)
   mc_accs : list acfg;              (* in the order of Module.accessibles *)
+  mc_cfg_auto : list (akey * mpropv);   (* implementation / interface_classes / features entries of the module's configuration *)
 }.
 
 (* ------------------------------------------------------------------ the run-time node *)
+(* p_dt is the datatype of the instance's Parameter object (class datatype with the configured datatype properties):
+   the one object that is exported, validates changes and converts what the hardware delivered.
+   p_err: the stored read error, identified by a token (the text of an error message is python runtime data; 0 = the
+   ConfigError of a parameter that was never initialised); p_hw: the hardware register behind a user read method *)
 Record par := {
-  p_dt : dtype; p_unit : str; p_readonly : bool; p_constant : option pyval; p_value : pyval; p_err : bool;
+  p_dt : dtype; p_unit : str; p_readonly : bool; p_constant : option pyval;
+  p_value : pyval; p_err : option N; p_hw : option pyval;
 }.
 Record cmd := { c_arg : option dtype; c_res : option dtype; c_ret : pyval }.
 Inductive abody := AP (p : par) | AC (c : cmd).
@@ -201,13 +214,13 @@ Definition build_par (mainunit : option str) (p : pcfg) : res par :=
        end
    end) >>= fun const =>
   (match pc_default p with
-   | Some v => iter_res 4 (dt_call d) v >>= fun v' => Ok (v', false)
-   | None => Ok (pc_dtdefault p, true)
+   | Some v => iter_res 4 (dt_call d) v >>= fun v' => Ok (v', None)
+   | None => Ok (pc_dtdefault p, Some 0%N)
    end) >>= fun ve =>
   Ok {| p_dt := d;
         p_unit := match mainunit with Some u => replace_dollar u (pc_unit p) | None => pc_unit p end;
         p_readonly := match const with Some _ => true | None => pc_readonly p end;
-        p_constant := const; p_value := fst ve; p_err := snd ve |}.
+        p_constant := const; p_value := fst ve; p_err := snd ve; p_hw := pc_hw p |}.
 
 Definition build_acc (mod_export : bool) (mainunit : option str) (a : acfg) : res acc :=
   (match ac_body a with
@@ -239,6 +252,33 @@ Definition interface_classes (mro : list (str * bool)) : list str :=
   firstn interface_classes_limit (filter (fun n => mem_str n secop_base_classes) (map fst mro)).
 Definition features_of (mro : list (str * bool)) : list str := map fst (filter snd mro).
 
+(* Module.__init__, module properties: step 2 applies what the configuration says (setProperty in the order given), step 3
+   assigns the automatic properties.  The order of the two steps is read off the source (auto_props_after_cfg). *)
+Record mprops := { mp_impl : option mpropv; mp_ifaces : option mpropv; mp_features : option mpropv }.
+Definition mp_empty : mprops := {| mp_impl := None; mp_ifaces := None; mp_features := None |}.
+Definition mp_set (k : akey) (v : mpropv) (r : mprops) : mprops :=
+  match k with
+  | KImpl => {| mp_impl := Some v; mp_ifaces := mp_ifaces r; mp_features := mp_features r |}
+  | KIfaces => {| mp_impl := mp_impl r; mp_ifaces := Some v; mp_features := mp_features r |}
+  | KFeatures => {| mp_impl := mp_impl r; mp_ifaces := mp_ifaces r; mp_features := Some v |}
+  end.
+Definition cfg_props (l : list (akey * mpropv)) (r : mprops) : mprops :=
+  fold_left (fun r kv => mp_set (fst kv) (snd kv) r) l r.
+Definition auto_props (m : mcfg) (r : mprops) : mprops :=
+  mp_set KFeatures (MPList (features_of (mc_mro m)))
+    (mp_set KIfaces (MPList (interface_classes (mc_mro m))) (mp_set KImpl (MPStr (mc_impl m)) r)).
+Definition module_props (m : mcfg) : mprops :=
+  if auto_props_after_cfg then auto_props m (cfg_props (mc_cfg_auto m) mp_empty)
+  else cfg_props (mc_cfg_auto m) (auto_props m mp_empty).
+(* setProperty validates: implementation is a string, the other two are arrays of strings (BadValueError -> ConfigError) *)
+Definition prop_kind_ok (kv : akey * mpropv) : bool :=
+  match kv with
+  | (KImpl, MPStr _) | (KIfaces, MPList _) | (KFeatures, MPList _) => true
+  | _ => false
+  end.
+Definition prop_str (o : option mpropv) : str := match o with Some (MPStr s) => s | _ => [] end.
+Definition prop_list (o : option mpropv) : list str := match o with Some (MPList l) => l | _ => [] end.
+
 (* "export name ... is already used" -> self.errors -> ConfigError: the module is not created *)
 Definition wires (accs : list acc) : list str :=
   flat_map (fun a => match a_wire a with Some w => [w] | None => [] end) accs.
@@ -248,8 +288,11 @@ Fixpoint dup_free (l : list str) : bool :=
 Definition build_mod (m : mcfg) : res modl :=
   map_resA (build_acc (mc_export m) (main_unit (mc_accs m))) (mc_accs m) >>= fun accs =>
   if negb (dup_free (wires accs)) then Err EOther else
-  Ok {| m_name := mc_name m; m_export := mc_export m; m_group := mc_group m; m_vis := mc_vis m; m_impl := mc_impl m;
-        m_ifaces := interface_classes (mc_mro m); m_features := features_of (mc_mro m); m_accs := accs |}.
+  if negb (forallb prop_kind_ok (mc_cfg_auto m)) then Err EOther else
+  let props := module_props m in
+  Ok {| m_name := mc_name m; m_export := mc_export m; m_group := mc_group m; m_vis := mc_vis m;
+        m_impl := prop_str (mp_impl props); m_ifaces := prop_list (mp_ifaces props);
+        m_features := prop_list (mp_features props); m_accs := accs |}.
 
 Definition build (n : list mcfg) : res state :=
   map_resA build_mod n >>= fun ms => Ok {| s_mods := ms; s_active := false; s_subs := [] |}.
@@ -301,11 +344,12 @@ Record upd := { u_mod : str; u_wire : option str; u_body : ubody }.
 
 Inductive op :=
 | ODescribe
-| ORead (m w : str)
+| ORead (m w : str) (tok : N)       (* tok: identity of the error a failing conversion of the hardware value raises *)
 | OChange (m w : str) (j : pyval)
 | ODo (m w : str) (arg : pyval)
 | OActivate (spec : option (str * option str))
-| ODriverSet (m attr : str) (v : pyval).
+| ODriverSet (m attr : str) (v : pyval) (tok : N)
+| OHwSet (m attr : str) (v : pyval).     (* the hardware register read by read_<attr> changes; the node does not notice *)
 
 Definition find_mod (s : state) (m : str) : option modl := find (fun x => str_eqb m (m_name x)) (s_mods s).
 Definition wire_is (w : str) (a : acc) : bool := opt_eqb str_eqb (a_wire a) (Some w).
@@ -314,26 +358,27 @@ Definition wire_is (w : str) (a : acc) : bool := opt_eqb str_eqb (a_wire a) (Som
 Definition lookup0 (md : modl) (w : str) : option acc := find (wire_is w) (rev (m_accs md)).
 Definition find_attr (md : modl) (attr : str) : option acc := find (fun a => str_eqb attr (a_attr a)) (m_accs md).
 
-(* only value and error flag of a parameter object ever change *)
-Definition with_value (p : par) (v : pyval) (e : bool) : par :=
-  {| p_dt := p_dt p; p_unit := p_unit p; p_readonly := p_readonly p; p_constant := p_constant p; p_value := v; p_err := e |}.
+(* only value, read error and hardware register of a parameter object ever change *)
+Definition with_value (p : par) (v : pyval) (e : option N) (h : option pyval) : par :=
+  {| p_dt := p_dt p; p_unit := p_unit p; p_readonly := p_readonly p; p_constant := p_constant p;
+     p_value := v; p_err := e; p_hw := h |}.
 
-Definition set_val_acc (attr : str) (v : pyval) (e : bool) (a : acc) : acc :=
+Definition set_val_acc (attr : str) (v : pyval) (e : option N) (h : option pyval) (a : acc) : acc :=
   if str_eqb attr (a_attr a) then
     match a_body a with
     | AP p => {| a_attr := a_attr a; a_wire := a_wire a; a_group := a_group a; a_vis := a_vis a;
-                 a_body := AP (with_value p v e) |}
+                 a_body := AP (with_value p v e h) |}
     | AC _ => a
     end
   else a.
-Definition set_val_mod (m attr : str) (v : pyval) (e : bool) (md : modl) : modl :=
+Definition set_val_mod (m attr : str) (v : pyval) (e : option N) (h : option pyval) (md : modl) : modl :=
   if str_eqb m (m_name md) then
     {| m_name := m_name md; m_export := m_export md; m_group := m_group md; m_vis := m_vis md; m_impl := m_impl md;
-       m_ifaces := m_ifaces md; m_features := m_features md; m_accs := map (set_val_acc attr v e) (m_accs md) |}
+       m_ifaces := m_ifaces md; m_features := m_features md; m_accs := map (set_val_acc attr v e h) (m_accs md) |}
   else md.
-(* pobj.value = value; pobj.readerror = err  of the parameter object <m>.<attr> *)
-Definition set_val (s : state) (m attr : str) (v : pyval) (e : bool) : state :=
-  {| s_mods := map (set_val_mod m attr v e) (s_mods s); s_active := s_active s; s_subs := s_subs s |}.
+(* pobj.value = value; pobj.readerror = err  of the parameter object <m>.<attr>  (h: the hardware register behind it) *)
+Definition set_val (s : state) (m attr : str) (v : pyval) (e : option N) (h : option pyval) : state :=
+  {| s_mods := map (set_val_mod m attr v e h) (s_mods s); s_active := s_active s; s_subs := s_subs s |}.
 
 Definition spec_eqb (a b : str * option str) : bool := pair_eqb str_eqb (opt_eqb str_eqb) a b.
 Definition subscribed (s : state) (sp : str * option str) : bool := existsb (spec_eqb sp) (s_subs s).
@@ -343,7 +388,10 @@ Definition listening (s : state) (m w : str) : bool :=
 
 Definition make_update (m : str) (wire : option str) (p : par) : upd :=
   {| u_mod := m; u_wire := wire;
-     u_body := if p_err p then UE else match dt_export (p_dt p) (p_value p) with Ok v => UV v | Err _ => UX end |}.
+     u_body := match p_err p with
+               | Some _ => UE
+               | None => match dt_export (p_dt p) (p_value p) with Ok v => UV v | Err _ => UX end
+               end |}.
 
 (* announceUpdate ... "if pobj.export: self.updateCallback(self, pobj)" *)
 Definition announce (s : state) (m : str) (a : acc) (p : par) : list upd :=
@@ -355,19 +403,41 @@ Definition announce (s : state) (m : str) (a : acc) (p : par) : list upd :=
 Definition with_qualifiers (v : pyval) : pyval := PList [v; PDict []].
 Definition reply_of (r : res pyval) : reply := match r with Ok v => RpData v | Err e => RpErr (RExc e) end.
 
-Definition do_read (s : state) (m w : str) : reply :=
+Definition err_is (e : option N) (tok : N) : bool := opt_eqb N.eqb e (Some tok).
+
+(* the generated read wrapper: value = read_<attr>() ; pobj = self.accessibles[pname] ; value = pobj.datatype(value)
+   with the Parameter of the INSTANCE (p_dt is what the report shows); a failure is announced as read error (unless it equals
+   the stored one) and raised; success: announceUpdate(validate=False), then the reply exports the cached value *)
+Definition read_hw (s : state) (m : str) (a : acc) (p : par) (hw : pyval) (tok : N) : state * reply * list upd :=
+  match dt_call (p_dt p) hw with
+  | Ok nv =>
+      let p' := with_value p nv None (p_hw p) in
+      (set_val s m (a_attr a) nv None (p_hw p), reply_of (dt_export (p_dt p) nv >>= fun v => Ok (with_qualifiers v)),
+       announce s m a p')
+  | Err e =>
+      if err_is (p_err p) tok then (s, RpErr (RExc e), [])
+      else
+        let p' := with_value p (p_value p) (Some tok) (p_hw p) in
+        (set_val s m (a_attr a) (p_value p) (Some tok) (p_hw p), RpErr (RExc e), announce s m a p')
+  end.
+
+Definition do_read (s : state) (m w : str) (tok : N) : state * reply * list upd :=
   match find_mod s m with
-  | None => RpErr RNoMod
+  | None => (s, RpErr RNoMod, [])
   | Some md =>
       match lookup0 md w with
-      | None => RpErr RNoPar
+      | None => (s, RpErr RNoPar, [])
       | Some a =>
           match a_body a with
-          | AC _ => RpErr RNoPar
+          | AC _ => (s, RpErr RNoPar, [])
           | AP p =>
               match p_constant p with
-              | Some c => RpData (with_qualifiers c)            (* the constant property holds the exported value *)
-              | None => reply_of (dt_export (p_dt p) (p_value p) >>= fun v => Ok (with_qualifiers v))
+              | Some c => (s, RpData (with_qualifiers c), [])     (* the constant property holds the exported value *)
+              | None =>
+                  match p_hw p with
+                  | None => (s, reply_of (dt_export (p_dt p) (p_value p) >>= fun v => Ok (with_qualifiers v)), [])
+                  | Some hw => read_hw s m a p hw tok
+                  end
               end
           end
       end
@@ -392,8 +462,8 @@ Definition do_change (E : pyenv) (s : state) (m w : str) (j : pyval) : state * r
                     match wire E (p_dt p) j (p_value p) >>= fun v => dt_validate (p_dt p) v PNone with
                     | Err e => (s, RpErr (RExc e), [])
                     | Ok nv =>
-                        let p' := with_value p nv false in
-                        (set_val s m (a_attr a) nv false, reply_of (dt_export (p_dt p) nv >>= fun v => Ok (with_qualifiers v)),
+                        let p' := with_value p nv None (p_hw p) in
+                        (set_val s m (a_attr a) nv None (p_hw p), reply_of (dt_export (p_dt p) nv >>= fun v => Ok (with_qualifiers v)),
                          announce s m a p')
                     end
               end
@@ -466,7 +536,7 @@ Definition do_activate (s : state) (spec : option (str * option str)) : state * 
   end.
 
 (* Parameter.__set__ -> announceUpdate(name, value) with validate=True *)
-Definition do_driver_set (s : state) (m attr : str) (v : pyval) : state * reply * list upd :=
+Definition do_driver_set (s : state) (m attr : str) (v : pyval) (tok : N) : state * reply * list upd :=
   match find_mod s m with
   | None => (s, RpNone, [])
   | Some md =>
@@ -476,11 +546,32 @@ Definition do_driver_set (s : state) (m attr : str) (v : pyval) : state * reply 
           match a_body a with
           | AC _ => (s, RpNone, [])
           | AP p =>
-              let p' := match dt_call (p_dt p) v with
-                        | Ok nv => with_value p nv false
-                        | Err _ => with_value p (p_value p) true
-                        end in
-              (set_val s m attr (p_value p') (p_err p'), RpNone, announce s m a p')
+              match dt_call (p_dt p) v with
+              | Ok nv => (set_val s m attr nv None (p_hw p), RpNone, announce s m a (with_value p nv None (p_hw p)))
+              | Err _ =>
+                  if err_is (p_err p) tok then (s, RpNone, [])           (* no updates for repeated errors *)
+                  else (set_val s m attr (p_value p) (Some tok) (p_hw p), RpNone,
+                        announce s m a (with_value p (p_value p) (Some tok) (p_hw p)))
+              end
+          end
+      end
+  end.
+
+(* the hardware changes behind the node's back: only a later read_<attr>() sees it *)
+Definition do_hw_set (s : state) (m attr : str) (v : pyval) : state * reply * list upd :=
+  match find_mod s m with
+  | None => (s, RpNone, [])
+  | Some md =>
+      match find_attr md attr with
+      | None => (s, RpNone, [])
+      | Some a =>
+          match a_body a with
+          | AC _ => (s, RpNone, [])
+          | AP p =>
+              match p_hw p with
+              | Some _ => (set_val s m attr (p_value p) (p_err p) (Some v), RpNone, [])
+              | None => (s, RpNone, [])
+              end
           end
       end
   end.
@@ -488,11 +579,12 @@ Definition do_driver_set (s : state) (m attr : str) (v : pyval) : state * reply 
 Definition step (E : pyenv) (s : state) (o : op) : state * reply * list upd :=
   match o with
   | ODescribe => (s, RpDesc (describe s), [])
-  | ORead m w => (s, do_read s m w, [])
+  | ORead m w tok => do_read s m w tok
   | OChange m w j => do_change E s m w j
   | ODo m w arg => (s, do_do E s m w arg, [])
   | OActivate spec => do_activate s spec
-  | ODriverSet m attr v => do_driver_set s m attr v
+  | ODriverSet m attr v tok => do_driver_set s m attr v tok
+  | OHwSet m attr v => do_hw_set s m attr v
   end.
 
 Fixpoint run (E : pyenv) (s : state) (ops : list op) : state :=
